@@ -107,6 +107,10 @@ HEADERS = [
     ('Content-Length', '5'), ('CIMOperation', 'MethodResponse'),
     ('Transfer-Encoding', 'chunked'),
 ]
+ERROR_CODES = ['', ' ', '1 ', ' 1', '01', '+1', '-1', '1.0', '1e1', '0x1', '1_0',
+               '99', '255', '65536', '9' * 30, 'x', 'CIM_ERR_FAILED', 'None',
+               '\u00b2', '1\u00b9', '\u2460', '\uff11', '\u0661', '\u0969',
+               '\u00bd', '1\n', '\t1', '{0}', '%d']
 LOCATIONS = ['http://[bad', 'https://[::1', 'http://srv/cimom', '/cimom', '/x',
              '', ' ', '//', 'ftp://x/y', 'http://other:99999/', 'http://h:abc/',
              'http://exa mple/', 'http://\u00e9/', 'mailto:a@b', 'http://',
@@ -172,7 +176,7 @@ def make_fault(name):
 
 def g_response(draw):
     mode = draw(st.sampled_from(['xml'] * 10 + ['bytes'] * 3 +
-                                ['raw', 'yaml', 'yaml', 'fault']))
+                                ['raw', 'yaml', 'yaml', 'fault', 'cimerror']))
     spec = {'mode': mode}
     status = draw(st.sampled_from(STATUS))
     if mode in ('xml', 'yaml') and draw(S._I10) < 8:
@@ -231,6 +235,18 @@ def g_response(draw):
                              b'<CIM CIMVERSION="3.0" DTDVERSION="2.0">'
                              b'<MESSAGE ID="1" PROTOCOLVERSION="1.0">'
                              b'<SIMPLERSP/></MESSAGE></CIM>'])))
+    if mode == 'cimerror':
+        # an ERROR element in place: status code attribute of every shape
+        # (valid, out of range, not a number, digits that are no int()
+        # literal), description, optional error instances
+        spec['code'] = draw(st.one_of(
+            st.integers(0, 30).map(str),
+            st.sampled_from(ERROR_CODES),
+            st.sampled_from(R.ATTR_VALUES)))
+        spec['desc'] = draw(st.one_of(st.none(), S._CIMSTR,
+                                      st.sampled_from(R.ATTR_VALUES)))
+        spec['einst'] = draw(st.sampled_from([0, 0, 0, 1, 2]))
+        spec['mut'] = R.g_mutations(draw) if draw(S._I10) < 3 else []
     if mode == 'yaml':
         spec['yaml'] = draw(st.integers(0, 10 ** 6))
         spec['mut'] = R.g_mutations(draw)
@@ -288,6 +304,13 @@ def build_body(spec, tag, name, call, force_final=False):
         except Exception:  # pylint: disable=broad-except
             pass  # recorded body that is not well-formed: use as is
         return text.encode('utf-8')
+    if mode == 'cimerror':
+        text = cimerror_body(tag or 'IMETHODCALL', name or 'x', spec)
+        try:
+            text = R.mutate(text, spec['mut'])
+        except Exception:  # pylint: disable=broad-except
+            pass    # characters lxml cannot hold: use the unmutated text
+        return text.encode('utf-8', 'surrogatepass')
     if spec.get('flip_level'):
         class_level = not class_level
     text = R.valid_response(tag or 'IMETHODCALL', name or 'x', spec['pool'],
@@ -297,6 +320,23 @@ def build_body(spec, tag, name, call, force_final=False):
     if mode == 'bytes':
         body = R.damage(body, *spec['damage'])
     return body
+
+
+def cimerror_body(tag, name, spec):
+    from xml.sax.saxutils import quoteattr
+    rtag = {'IMETHODCALL': 'IMETHODRESPONSE', 'METHODCALL': 'METHODRESPONSE',
+            'EXPMETHODCALL': 'EXPMETHODRESPONSE'}[tag]
+    outer = 'SIMPLEEXPRSP' if tag == 'EXPMETHODCALL' else 'SIMPLERSP'
+    attrs = ' CODE=%s' % quoteattr(spec['code'])
+    if spec['desc'] is not None:
+        attrs += ' DESCRIPTION=%s' % quoteattr(spec['desc'])
+    inst = ('<INSTANCE CLASSNAME="CIM_Error"><PROPERTY NAME="ErrorType" '
+            'TYPE="uint16"><VALUE>4</VALUE></PROPERTY></INSTANCE>')
+    return ('<?xml version="1.0" encoding="utf-8" ?>\n<CIM CIMVERSION="2.0" '
+            'DTDVERSION="2.0"><MESSAGE ID="1001" PROTOCOLVERSION="1.0">'
+            '<%s><%s NAME=%s><ERROR%s>%s</ERROR></%s></%s></MESSAGE></CIM>' %
+            (outer, rtag, quoteattr(name), attrs, inst * spec['einst'], rtag,
+             outer))
 
 
 PRELUDE_POOL = {'insts': [{'k': 'inst', 'classname': 'CIM_Prelude',
@@ -434,7 +474,7 @@ def oracle(ctx, ex, key=None):
     nontriv = False
     if outcome != 'local':
         specs = ex['responses']
-        nontriv = any(s['mode'] in ('xml', 'yaml') and len(s.get('mut', ()))
+        nontriv = any(s['mode'] in ('xml', 'yaml', 'cimerror') and len(s.get('mut', ()))
                       <= 1 for s in specs) or \
             any(b is not None and _reaches_logic(b) for b in bodies[:2])
     ctx.case(key=key, nontrivial=nontriv, classes=classes)
@@ -578,6 +618,226 @@ def crosskind_replay(ctx, key):
     oracle(ctx, _crosskind_example(key), key=key)
 
 
+# ---------------------------------------------------------------------------
+# sub-check: rawhttp - a scripted server on a real loopback socket, so that
+# the HTTP layer below pywbem (requests / urllib3 / http.client) parses real
+# bytes: status lines, header sections and body framings of every shape
+
+_RAW_PREFIX = [b'', b'', b'', b'', b'', b'HTTP/1.1 100 Continue\r\n\r\n',
+               b'HTTP/1.1 100 Continue\r\n\r\n' * 3,
+               b'HTTP/1.1 102 Processing\r\n\r\n', b'\r\n', b'junk\r\n',
+               b'\x00\x01\x02', b'HTTP/1.1 101 Switching\r\n\r\n']
+_RAW_STATUS = [b'HTTP/1.1 200 OK'] * 8 + [
+    b'HTTP/1.0 200 OK', b'HTTP/1.1 200', b'HTTP/1.1 200 ', b'HTTP/2.0 200 OK',
+    b'HTTP/1.1 abc OK', b'HTTP/1.1 99 x', b'HTTP/1.1 1000 x', b'HTTP/1.1 -1 x',
+    b'HTTP/1.1 2000 OK', b'ICY 200 OK', b'', b'HTTP/1.1', b'HTTP/1.1  200  OK',
+    b'HTTP/1.1 200 \xff\xfe', b'HTTP/1.1 401 Unauthorized', b'HTTP/1.1 500 x',
+    b'HTTP/1.1 204 No Content', b'HTTP/1.1 304 Not Modified',
+    b'HTTP/1.1 301 Moved', b'HTTP/1.1 407 Proxy Authentication Required',
+    b'\x00' * 10, b'HTTP/1.1 200 ' + b'x' * 70000, b'http/1.1 200 ok',
+    b'HTTP/1.1 200 OK\x00', b'<CIM/>', b'HTTP/1.1 200 \xe4\xf6']
+_RAW_HEADERS = [
+    (b'Content-Type', b'application/xml; charset="utf-8"'),
+    (b'Content-Type', b'application/xml; charset="utf-8"'),
+    (b'Content-Type', b'text/xml'), (b'Content-Type', b'\xff\xfe'),
+    (b'Content-Type', b'application/xml; charset=utf-16'),
+    (b'Content-Encoding', b'gzip'), (b'Content-Encoding', b'deflate'),
+    (b'Content-Encoding', b'br'), (b'Content-Encoding', b'x, gzip'),
+    (b'Content-Encoding', b'identity'), (b'Transfer-Encoding', b'gzip'),
+    (b'Transfer-Encoding', b'identity'), (b'Connection', b'close'),
+    (b'Connection', b'keep-alive'), (b'Connection', b'upgrade'),
+    (b'WWW-Authenticate', b'Basic realm="x"'), (b'WWW-Authenticate', b''),
+    (b'CIMError', b'request-not-valid'), (b'CIMError', b'\xe4'),
+    (b'PGErrorDetail', b'%ff%fe'), (b'Location', b'http://[bad'),
+    (b'Location', b'/cimom'), (b'Set-Cookie', b'a=b; Path=/'),
+    (b'Set-Cookie', b'\x00'), (b'WBEMServerResponseTime', b'12'),
+    (b'WBEMServerResponseTime', b'\xb2'), (b'Content-Length', b'3'),
+    (b'Content-Length', b'-1'), (b'Date', b'yesterday'),
+    (b'X-Utf8', 'gr\u00fc\u00df \u20ac'.encode('utf-8')),
+    (b'X-Nul', b'a\x00b'), (b'Trailer', b'X-Trailer'),
+    (b'Upgrade', b'h2c'), (b'Keep-Alive', b'timeout=x'),
+]
+_RAW_LINES = [b'NoColonHere', b' leading-space: x', b': novalue',
+              b'X-Fold: a\r\n  continued', b'X-Fold: a\r\n\tcontinued',
+              b'X\x00Y: z', b'X-\xe4: \xe4', b'Content-Type',
+              b'X: ' + b'\xff' * 10, b'X-CR: a\rb', b'X Y: z', b'',
+              b'X-Tab\t: v', b'\xef\xbb\xbfX-BOM: v']
+_RAW_FRAMING = ['length'] * 8 + ['none', 'none', 'short', 'long', 'garbage',
+                                 'two', 'chunked', 'chunked', 'chunked-badsize',
+                                 'chunked-noterm', 'chunked-trailer',
+                                 'chunked+length']
+_RAW_SERVER = []
+
+
+def rawhttp_strategy():
+    @st.composite
+    def strat(draw):
+        op = O.ALL_OPS[draw(st.integers(0, len(O.ALL_OPS) - 1))]
+        call = O.g_call(draw, op, simple_paths=True)
+        if op.startswith('Iter'):
+            for k in ('FilterQuery', 'FilterQueryLanguage', 'ContinueOnError',
+                      'ReturnQueryResultClass'):
+                if k in call['args'] and op != 'IterQueryInstances':
+                    call['args'][k] = None
+            if op == 'IterQueryInstances':
+                call['args']['ContinueOnError'] = None
+                call['args']['ReturnQueryResultClass'] = None
+        # a plain, correct exchange with 0..3 deviations (mostly one), so
+        # that each deviation is also seen alone
+        script = {'prefix': b'', 'status_line': b'HTTP/1.1 200 OK',
+                  'headers': [(b'Content-Type',
+                               b'application/xml; charset="utf-8"')],
+                  'raw_headers': [], 'many': 0, 'long': 0, 'eol': b'\r\n',
+                  'framing': 'length', 'cl': b'abc', 'close_early': False,
+                  'cutpm': None}
+        bkind = 'valid'
+        ndev = draw(st.sampled_from([0, 1, 1, 1, 1, 2, 2, 3]))
+        for _ in range(ndev):
+            dev = draw(st.sampled_from(
+                ['prefix', 'status', 'status', 'headers', 'headers', 'lines',
+                 'many', 'long', 'eol', 'framing', 'framing', 'cut', 'cut',
+                 'close', 'body', 'body']))
+            if dev == 'prefix':
+                script['prefix'] = draw(st.sampled_from(
+                    [p for p in _RAW_PREFIX if p]))
+            elif dev == 'status':
+                script['status_line'] = draw(st.sampled_from(_RAW_STATUS[8:]))
+            elif dev == 'headers':
+                script['headers'] = script['headers'] + [
+                    draw(st.sampled_from(_RAW_HEADERS))
+                    for _ in range(1 + draw(S._I10) % 2)]
+                if draw(S._I10) < 3:
+                    script['headers'] = script['headers'][1:]
+            elif dev == 'lines':
+                script['raw_headers'] = [
+                    draw(st.sampled_from(_RAW_LINES))
+                    for _ in range(1 + draw(S._I10) % 2)]
+            elif dev == 'many':
+                script['many'] = draw(st.sampled_from(
+                    [50, 97, 98, 99, 100, 101, 150, 1000]))
+            elif dev == 'long':
+                script['long'] = draw(st.sampled_from(
+                    [1000, 65000, 65500, 65536, 65537, 100000, 300000]))
+            elif dev == 'eol':
+                script['eol'] = draw(st.sampled_from([b'\n', b'\r']))
+            elif dev == 'framing':
+                script['framing'] = draw(st.sampled_from(
+                    [f for f in _RAW_FRAMING if f != 'length']))
+                script['cl'] = draw(st.sampled_from(
+                    [b'abc', b'', b'1e3', b'0x10', b'99999999999999999999',
+                     b'\xb2', b'3, 3', b' 5 ']))
+            elif dev == 'cut':
+                script['cutpm'] = draw(st.integers(0, 1000))
+            elif dev == 'close':
+                script['close_early'] = True
+            else:
+                bkind = draw(st.sampled_from(
+                    ['gzip', 'deflate', 'raw', 'empty', 'big']))
+                if bkind in ('gzip', 'deflate') and draw(S._B):
+                    # announced as such: a legitimate compressed response
+                    script['headers'] = script['headers'] + [
+                        (b'Content-Encoding', bkind.encode())]
+        body = {'kind': bkind, 'pool': R.g_pool(draw),
+                'raw': draw(st.binary(max_size=30))}
+        return {'call': call, 'script': script, 'body': body,
+                'pull': draw(st.sampled_from([None, None, True, False]))}
+    return strat()
+
+
+def _raw_body(ex, tag, name):
+    import gzip
+    import zlib
+    b = ex['body']
+    call = ex['call']
+    class_level = not (isinstance(call['args'].get('ObjectName'), dict) and
+                       call['args']['ObjectName']['k'] == 'ipath')
+    valid = R.valid_response(tag or 'IMETHODCALL', name or 'x', b['pool'],
+                             class_level, force_eos=True).encode('utf-8')
+    if b['kind'] == 'valid':
+        return valid
+    if b['kind'] == 'gzip':
+        return gzip.compress(valid)
+    if b['kind'] == 'deflate':
+        return zlib.compress(valid)
+    if b['kind'] == 'raw':
+        return b['raw']
+    if b['kind'] == 'big':
+        return valid + b' ' * 200000
+    return b''
+
+
+def rawhttp_oracle(ctx, ex):
+    import warnings
+    from . import rawserver
+    if not _RAW_SERVER:
+        _RAW_SERVER.append(rawserver.RawServer())
+    srv = _RAW_SERVER[0]
+    call = ex['call']
+    op = call['op']
+    # the body depends on the request (method name); Iter... operations send
+    # several requests: the script is completed by the first one and re-used
+    tag = 'METHODCALL' if op == 'InvokeMethod' else \
+        'EXPMETHODCALL' if op == 'ExportIndication' else 'IMETHODCALL'
+    name = call['args'].get('MethodName') if op == 'InvokeMethod' else op
+    if op.startswith('Iter'):
+        name = {'IterEnumerateInstances': 'OpenEnumerateInstances',
+                'IterEnumerateInstancePaths': 'OpenEnumerateInstancePaths',
+                'IterAssociatorInstances': 'OpenAssociatorInstances',
+                'IterAssociatorInstancePaths': 'OpenAssociatorInstancePaths',
+                'IterReferenceInstances': 'OpenReferenceInstances',
+                'IterReferenceInstancePaths': 'OpenReferenceInstancePaths',
+                'IterQueryInstances': 'OpenQueryInstances'}[op]
+    script = dict(ex['script'])
+    script['body'] = _raw_body(ex, tag, name)
+    whole = rawserver.assemble(dict(script, cut=None))
+    if script.get('cutpm') is not None:
+        script['cut'] = len(whole) * script['cutpm'] // 1000
+    srv.script = script
+    n0 = srv.connections
+    conn = pywbem.WBEMConnection('http://127.0.0.1:%d' % srv.port,
+                                 timeout=4, use_pull_operations=ex['pull'])
+    outcome = 'returned'
+    val = None
+    with warnings.catch_warnings():
+        warnings.simplefilter('ignore')
+        try:
+            try:
+                val = O.invoke(conn, call)
+            except pywbem.Error as exc:
+                outcome, val = 'error', exc
+            except Exception as exc:  # pylint: disable=broad-except
+                outcome, val = ('leak' if srv.connections > n0 else 'local',
+                                exc)
+        finally:
+            conn.close()
+    classes = ['op:' + op, 'outcome:' + outcome,
+               'framing:' + script['framing'], 'body:' + ex['body']['kind']]
+    if script['many'] >= 100:
+        classes.append('head:100-or-more-header-fields')
+    if script['long'] >= 65536 or len(script['status_line']) > 65536:
+        classes.append('head:line-longer-than-65536')
+    if script.get('cut') is not None:
+        classes.append('cut:' + ('in-head' if script['cut'] <
+                                 whole.find(script['eol'] * 2) else 'in-body'))
+    if script['status_line'] != b'HTTP/1.1 200 OK':
+        classes.append('status-line:unusual')
+    if script['prefix']:
+        classes.append('prefix:yes')
+    if outcome == 'leak':
+        ctx.fail_exc(val, 'leak')
+    elif outcome == 'error':
+        classes.append('error:' + type(val).__name__)
+    elif outcome == 'returned':
+        if not R.result_type_ok(op, call, val):
+            ctx.fail('result-type:' + op, 'returned %r' % (val,))
+    plain = (script['status_line'] == b'HTTP/1.1 200 OK' and
+             script['framing'] == 'length' and not script['prefix'] and
+             not script['raw_headers'] and not script['many'] and
+             not script['long'] and script.get('cut') is None and
+             ex['body']['kind'] == 'valid' and script['eol'] == b'\r\n')
+    ctx.case(nontrivial=outcome != 'local' and not plain, classes=classes)
+
+
 SUBCHECKS = [
     Sub('responses', strategy=strategy, oracle=oracle,
         quick=(16, 500), thorough=(16, 25000), case_timeout=60,
@@ -586,6 +846,9 @@ SUBCHECKS = [
         thorough=(8, 0), budget=(0, 900)),
     Sub('crosskind', enumerate=crosskind_enumerate, quick=(8, 0),
         thorough=(8, 0)),
+    Sub('rawhttp', strategy=rawhttp_strategy, oracle=rawhttp_oracle,
+        quick=(8, 250), thorough=(16, 6000), case_timeout=60,
+        timeout_is_violation=True),
 ]
 SUBCHECKS[1].replay = atheris_replay
 SUBCHECKS[2].replay = crosskind_replay
